@@ -521,6 +521,13 @@ def worker_cases(depth):
     for k in range(1, nb + 1):
         for seq in itertools.product([False, True], repeat=k):
             cases.append({"outcomes": list(seq), "success": "paused", "bystander": True})
+    # long runs of failing reconciles (a retry budget, a counter that wraps, a give-up threshold would show here):
+    # the queue is replaced by one of the same type with a short backoff so that they take bounded time
+    longs = [[False] * 24 + [True], [False] * 17 + [True] + [False] * 3 + [True], [False] * 40]
+    if depth != "quick":
+        longs += [[False] * 130 + [True, False, False, True], [False] * 64 + [True] + [False] * 33]
+    for seq in longs:
+        cases.append({"outcomes": seq, "success": "alternate", "bystander": False, "fast": True})
     return cases
 
 
@@ -544,7 +551,7 @@ def monitor_worker(case, obs):
                 bad.append("step %d: reconcile failed, NumRequeues %d -> %d (expected +1)" % (i, prev, st["requeues"]))
             if not st["back"]:
                 bad.append("step %d: LOST RETRY: reconcile failed and the key did not come back within %.0f ms" % (i, st["waited_ms"]))
-            elif st["requeues"] >= 1 and st["since_step_ms"] < 0.9 * 5 * 2 ** (st["requeues"] - 1):
+            elif not case.get("fast") and st["requeues"] >= 1 and st["since_step_ms"] < 0.9 * 5 * 2 ** (st["requeues"] - 1):
                 bad.append("step %d: key back after %.2f ms, before the backoff %d ms" % (i, st["since_step_ms"], 5 * 2 ** (st["requeues"] - 1)))
         prev = st["requeues"]
     return bad
